@@ -1,0 +1,294 @@
+//! Verification hook (only compiled with `--cfg ruma_ruma_verif`).
+//!
+//! Drop-in `HashMap` / `HashSet` wrappers for `lib.rs` whose *iteration order* is decided by
+//! a thread-local script instead of by `RandomState`, so that a model checker can enumerate
+//! the orders in which hash-based containers iterate. Lookups, insertion etc. go straight to
+//! the wrapped std container (with a fixed hasher, so the default order is reproducible).
+//!
+//! With the cfg off this file is not part of the crate.
+
+use std::{
+    borrow::Borrow,
+    cell::RefCell,
+    collections::{hash_map::DefaultHasher, HashMap as StdHashMap, HashSet as StdHashSet},
+    fmt,
+    hash::{BuildHasherDefault, Hash},
+    ops::{Deref, DerefMut},
+};
+
+type FixedState = BuildHasherDefault<DefaultHasher>;
+
+/// One recorded choice point: a container with `len` elements was iterated, `alternatives`
+/// orders were available and `choice` was taken.
+#[derive(Clone, Copy, Debug, PartialEq, Eq)]
+pub struct ChoicePoint {
+    /// Number of elements of the iterated container.
+    pub len: usize,
+    /// Number of orders the oracle offers for this length.
+    pub alternatives: u32,
+    /// The order taken.
+    pub choice: u32,
+}
+
+thread_local! {
+    static SCRIPT: RefCell<Vec<u32>> = const { RefCell::new(Vec::new()) };
+    static CURSOR: RefCell<usize> = const { RefCell::new(0) };
+    static LOG: RefCell<Vec<ChoicePoint>> = const { RefCell::new(Vec::new()) };
+}
+
+/// Set the script: the i-th iteration of a container with at least two elements takes the
+/// i-th entry (0 = default order); past the end of the script the default is taken.
+pub fn set_script(script: Vec<u32>) {
+    SCRIPT.with(|s| *s.borrow_mut() = script);
+    CURSOR.with(|c| *c.borrow_mut() = 0);
+    LOG.with(|l| l.borrow_mut().clear());
+}
+
+/// Take the log of choice points since the last `set_script`.
+pub fn take_log() -> Vec<ChoicePoint> {
+    LOG.with(|l| std::mem::take(&mut *l.borrow_mut()))
+}
+
+/// Number of orders offered for a container of `n` elements: all `n!` for `n <= 4`, otherwise
+/// identity, reverse, the `n - 1` adjacent swaps and the `n - 1` rotations.
+pub fn alternatives(n: usize) -> u32 {
+    match n {
+        0 | 1 => 1,
+        2 => 2,
+        3 => 6,
+        4 => 24,
+        _ => (2 * n) as u32,
+    }
+}
+
+fn permute<T>(mut v: Vec<T>) -> Vec<T> {
+    let n = v.len();
+    if n < 2 {
+        return v;
+    }
+    let alts = alternatives(n);
+    let choice = CURSOR.with(|c| {
+        let mut c = c.borrow_mut();
+        let i = *c;
+        *c += 1;
+        SCRIPT.with(|s| s.borrow().get(i).copied().unwrap_or(0))
+    });
+    assert!(choice < alts, "verif_order: choice {choice} out of range for {n} elements");
+    LOG.with(|l| l.borrow_mut().push(ChoicePoint { len: n, alternatives: alts, choice }));
+    if choice == 0 {
+        return v;
+    }
+    if n <= 4 {
+        // `choice`-th permutation in lexicographic order (factorial number system)
+        let mut k = choice as usize;
+        let mut out = Vec::with_capacity(n);
+        let mut fact = (1..n).product::<usize>();
+        for i in (0..n).rev() {
+            let idx = k / fact;
+            k %= fact;
+            out.push(v.remove(idx));
+            if i > 0 {
+                fact /= i;
+            }
+        }
+        out
+    } else if choice == 1 {
+        v.reverse();
+        v
+    } else if (choice as usize) < n + 1 {
+        // adjacent swap at position choice - 2
+        let i = choice as usize - 2;
+        v.swap(i, i + 1);
+        v
+    } else {
+        // rotation by choice - n
+        let r = choice as usize - n;
+        v.rotate_left(r);
+        v
+    }
+}
+
+/// `HashMap` with scripted iteration order.
+#[derive(Clone)]
+pub struct HashMap<K, V>(StdHashMap<K, V, FixedState>);
+
+impl<K, V> HashMap<K, V> {
+    /// Creates an empty map.
+    pub fn new() -> Self {
+        Self(StdHashMap::default())
+    }
+
+    /// Iterate over the entries in scripted order.
+    pub fn iter(&self) -> std::vec::IntoIter<(&K, &V)> {
+        permute(self.0.iter().collect()).into_iter()
+    }
+
+    /// Iterate over the keys in scripted order.
+    pub fn keys(&self) -> std::vec::IntoIter<&K> {
+        permute(self.0.keys().collect()).into_iter()
+    }
+
+    /// Iterate over the values in scripted order.
+    pub fn values(&self) -> std::vec::IntoIter<&V> {
+        permute(self.0.values().collect()).into_iter()
+    }
+
+    /// Consume the map, yielding the values in scripted order.
+    pub fn into_values(self) -> std::vec::IntoIter<V> {
+        permute(self.0.into_values().collect()).into_iter()
+    }
+
+    /// Consume the map, yielding the keys in scripted order.
+    pub fn into_keys(self) -> std::vec::IntoIter<K> {
+        permute(self.0.into_keys().collect()).into_iter()
+    }
+}
+
+impl<K, V> Default for HashMap<K, V> {
+    fn default() -> Self {
+        Self::new()
+    }
+}
+
+impl<K, V> Deref for HashMap<K, V> {
+    type Target = StdHashMap<K, V, FixedState>;
+    fn deref(&self) -> &Self::Target {
+        &self.0
+    }
+}
+
+impl<K, V> DerefMut for HashMap<K, V> {
+    fn deref_mut(&mut self) -> &mut Self::Target {
+        &mut self.0
+    }
+}
+
+impl<K: fmt::Debug, V: fmt::Debug> fmt::Debug for HashMap<K, V> {
+    fn fmt(&self, f: &mut fmt::Formatter<'_>) -> fmt::Result {
+        self.0.fmt(f)
+    }
+}
+
+impl<K: Eq + Hash, V: PartialEq> PartialEq for HashMap<K, V> {
+    fn eq(&self, other: &Self) -> bool {
+        self.0 == other.0
+    }
+}
+
+impl<K: Eq + Hash, V: Eq> Eq for HashMap<K, V> {}
+
+impl<K: Eq + Hash, V> FromIterator<(K, V)> for HashMap<K, V> {
+    fn from_iter<T: IntoIterator<Item = (K, V)>>(iter: T) -> Self {
+        Self(iter.into_iter().collect())
+    }
+}
+
+impl<K: Eq + Hash, V> Extend<(K, V)> for HashMap<K, V> {
+    fn extend<T: IntoIterator<Item = (K, V)>>(&mut self, iter: T) {
+        self.0.extend(iter);
+    }
+}
+
+impl<K, V> IntoIterator for HashMap<K, V> {
+    type Item = (K, V);
+    type IntoIter = std::vec::IntoIter<(K, V)>;
+    fn into_iter(self) -> Self::IntoIter {
+        permute(self.0.into_iter().collect()).into_iter()
+    }
+}
+
+impl<'a, K, V> IntoIterator for &'a HashMap<K, V> {
+    type Item = (&'a K, &'a V);
+    type IntoIter = std::vec::IntoIter<(&'a K, &'a V)>;
+    fn into_iter(self) -> Self::IntoIter {
+        self.iter()
+    }
+}
+
+/// `HashSet` with scripted iteration order.
+#[derive(Clone)]
+pub struct HashSet<T>(StdHashSet<T, FixedState>);
+
+impl<T> HashSet<T> {
+    /// Creates an empty set.
+    pub fn new() -> Self {
+        Self(StdHashSet::default())
+    }
+
+    /// Iterate over the elements in scripted order.
+    pub fn iter(&self) -> std::vec::IntoIter<&T> {
+        permute(self.0.iter().collect()).into_iter()
+    }
+}
+
+impl<T> Default for HashSet<T> {
+    fn default() -> Self {
+        Self::new()
+    }
+}
+
+impl<T> Deref for HashSet<T> {
+    type Target = StdHashSet<T, FixedState>;
+    fn deref(&self) -> &Self::Target {
+        &self.0
+    }
+}
+
+impl<T> DerefMut for HashSet<T> {
+    fn deref_mut(&mut self) -> &mut Self::Target {
+        &mut self.0
+    }
+}
+
+impl<T: fmt::Debug> fmt::Debug for HashSet<T> {
+    fn fmt(&self, f: &mut fmt::Formatter<'_>) -> fmt::Result {
+        self.0.fmt(f)
+    }
+}
+
+impl<T: Eq + Hash> PartialEq for HashSet<T> {
+    fn eq(&self, other: &Self) -> bool {
+        self.0 == other.0
+    }
+}
+
+impl<T: Eq + Hash> Eq for HashSet<T> {}
+
+impl<T: Eq + Hash> FromIterator<T> for HashSet<T> {
+    fn from_iter<I: IntoIterator<Item = T>>(iter: I) -> Self {
+        Self(iter.into_iter().collect())
+    }
+}
+
+impl<T: Eq + Hash> Extend<T> for HashSet<T> {
+    fn extend<I: IntoIterator<Item = T>>(&mut self, iter: I) {
+        self.0.extend(iter);
+    }
+}
+
+impl<T> IntoIterator for HashSet<T> {
+    type Item = T;
+    type IntoIter = std::vec::IntoIter<T>;
+    fn into_iter(self) -> Self::IntoIter {
+        permute(self.0.into_iter().collect()).into_iter()
+    }
+}
+
+impl<'a, T> IntoIterator for &'a HashSet<T> {
+    type Item = &'a T;
+    type IntoIter = std::vec::IntoIter<&'a T>;
+    fn into_iter(self) -> Self::IntoIter {
+        self.iter()
+    }
+}
+
+impl<T: Eq + Hash> HashSet<T> {
+    /// `contains` that also works through `Borrow`, mirroring std.
+    pub fn contains_borrowed<Q>(&self, value: &Q) -> bool
+    where
+        T: Borrow<Q>,
+        Q: Hash + Eq + ?Sized,
+    {
+        self.0.contains(value)
+    }
+}
